@@ -66,6 +66,12 @@ func registerSched() {
 	var lassoSt *oracle.Stats
 	const c15Cycles = 24
 	run.Register(&SchedCheck{Id: "C15", Profile: "closed", Quick: 1600, Thorough: 24000, TimeoutCase: 180 * time.Second,
+		Gen: func(seed int64, idx int, tier string) *spec.Case {
+			if idx%3 == 1 { // a third of the closed systems are department-contention clusters (gen.Contention)
+				return gen.Contention(seed, idx, tier)
+			}
+			return nil
+		},
 		Mutate: func(c *spec.Case, seed int64, idx int) {
 			lasso = &oracle.Lasso{}
 			c.Cycles = c15Cycles
